@@ -8,7 +8,7 @@
      lk      launcher holding the file lock (0 = free)       path   worker whose socket inode the path names (0 = none)
      wo      per worker: is its listening socket open        ic     per worker: inode class (smallest worker number
      res     per launcher: "none" | "path" | "error"                with the same st_ino; 0 = not bound yet)
-   Registers: tid -> furthest event matched; 1000+tid -> clauses violated in a matched state.                  *)
+   Registers: tid -> furthest event matched; 100000+tid -> clauses violated in a matched state.                  *)
 EXTENDS Launcher, Sequences, Json, IOUtils, TLCExt
 Traces == JsonDeserialize(IOEnv.TRACE_FILE)
 VARIABLES tid, l
@@ -23,7 +23,8 @@ TraceInit == /\ tid \in 1..Len(Traces) /\ l = 1 /\ Init
 Ev == Traces[tid].ev[l]
 Consume == l <= Len(Traces[tid].ev) /\ l' = l + 1 /\ UNCHANGED tid
 
-Match == /\ \A i \in Launchers : LLabel(pc'[i]) = Ev.ll[i] /\ Res(res'[i]) = Ev.res[i]
+\* (a trace of fewer launchers than NLaunch: the others never leave "start")
+Match == /\ \A i \in 1..Len(Ev.ll) : LLabel(pc'[i]) = Ev.ll[i] /\ Res(res'[i]) = Ev.res[i]
          /\ nW' = Len(Ev.wl)
          /\ \A w \in 1..Len(Ev.wl) : /\ WLabel(wst'[w]) = Ev.wl[w]
                                      /\ Listening(w)' = Ev.wo[w]
@@ -31,7 +32,7 @@ Match == /\ \A i \in Launchers : LLabel(pc'[i]) = Ev.ll[i] /\ Res(res'[i]) = Ev.
          /\ lk' = Ev.lk /\ path' = Ev.path
 
 TraceNext == /\ Consume
-             /\ \/ /\ Ev.a = "L" /\ Ev.k \in Launchers
+             /\ \/ /\ Ev.a = "L" /\ Ev.k \in 1..Len(Ev.ll)
                    /\ \/ LBegin(Ev.k) \/ LLock(Ev.k) \/ LProbe(Ev.k) \/ LUnlink(Ev.k) \/ LSpawn(Ev.k) \/ LReady(Ev.k)
                 \/ /\ Ev.a = "W" /\ Ev.k \in Workers
                    /\ \/ WStart(Ev.k) \/ WCheck(Ev.k) \/ WBind(Ev.k) \/ WClose(Ev.k) \/ WUnlink(Ev.k)
@@ -43,8 +44,8 @@ Bad == {c \in {"AtMostOneServing", "SpawnOnlyIfNoneAlive", "ReturnedAccepting"} 
           \/ (c = "SpawnOnlyIfNoneAlive" /\ ~SpawnOnlyIfNoneAlive)
           \/ (c = "ReturnedAccepting" /\ ~ReturnedAccepting)}
 Track == /\ TLCSet(tid, IF TLCGet(tid) < l THEN l ELSE TLCGet(tid))
-         /\ TLCSet(1000 + tid, TLCGet(1000 + tid) \cup Bad)
-ASSUME \A i \in 1..Len(Traces) : TLCSet(i, 0) /\ TLCSet(1000 + i, {})
+         /\ TLCSet(100000 + tid, TLCGet(100000 + tid) \cup Bad)
+ASSUME \A i \in 1..Len(Traces) : TLCSet(i, 0) /\ TLCSet(100000 + i, {})
 Verdicts == \A i \in 1..Len(Traces) :
-   PrintT("@@J@@" \o ToJson([tid |-> i, matched |-> TLCGet(i) - 1, len |-> Len(Traces[i].ev), bad |-> TLCGet(1000 + i)]))
+   PrintT("@@J@@" \o ToJson([tid |-> i, matched |-> TLCGet(i) - 1, len |-> Len(Traces[i].ev), bad |-> TLCGet(100000 + i)]))
 =========================================================================================
